@@ -265,7 +265,7 @@ def read_only(chk: Check) -> None:
     ok = any(b.endswith('Mapping') for b in bases) and not any('MutableMapping' in b for b in bases)
     chk.ob('OWN-frozen', fd.qualname, ok, f'Frozendict is a Mapping, not a MutableMapping (bases {bases[1:]})', kind='bases')
     for c in [fd] + prog.subclasses(fd):
-        for name, f in c.methods.items():
+        for name, f in c.vmethods.items():
             if name == '__init__':
                 continue
             for n in ast.walk(f.node):
@@ -284,7 +284,7 @@ def read_only(chk: Check) -> None:
                 if bad is not None:
                     chk.ob('OWN-frozen', f, False, 'a method other than the constructor changes the wrapped dictionary: the inputs are not read-only', node=bad, kind='mutator')
     chk.ob('OWN-frozen', fd.qualname, True, 'no method outside __init__ stores into or mutates the wrapped dictionary', kind='no-mutator')
-    init = prog.view(fd.methods['__init__'])
+    init = prog.view(fd.vmethods['__init__'])
     ok = any(isinstance(n, ast.Assign) and norm(n.targets[0]) == 'self._dict' and isinstance(n.value, ast.Call) and norm(n.value.func) == 'dict' for n in ast.walk(init.node))
     chk.ob('OWN-frozen', init, ok, 'the constructor copies its argument into a new dict (later changes of the source do not show)', kind='constructor-copies')
     pp = prog.func('ports.PortNamespace.pre_process')
@@ -402,8 +402,9 @@ def defaults(chk: Check) -> None:
     ff = chk.ctx.facts.analyse(pp)
     cfg = ff.cfg
     calls = [n for n in cfg.nodes if any(isinstance(c.func, ast.Name) and c.func.id == 'default' for c in _calls(n))]
-    dcalls = [c for c in calls_in_func(pp) if isinstance(c.func, ast.Name) and c.func.id == 'default']
-    ok = len(dcalls) == 1 and all(('T', 'callable(default)') in fs for _, fs in ff.site_facts(dcalls[0]))
+    # the call of the port's default (through a local or directly): ``<port>.default()``
+    dcalls = [c for c in calls_in_func(pp) if not c.args and not c.keywords and ff.canon.key(c.func).endswith('.default')]
+    ok = len(dcalls) == 1 and all(('T', f'callable({ff.canon.key(dcalls[0].func)})') in fs for _, fs in ff.site_facts(dcalls[0]))
     chk.ob('PROV-defaults', pp, ok, 'a callable default is evaluated (once) when it is used', kind='callable-evaluated')
     vp = pp.params[1]
     use = [n for n in cfg.nodes if any(norm(c.func).endswith('.has_default') for c in _calls(n))]
